@@ -1,0 +1,43 @@
+//go:build verif
+
+// Contracts for the govc verifier (/verif). Comment-only.
+
+package txrules
+
+// feeFor is the specification of FeeForSerializeSize for non-negative
+// arguments: rate*size/1000, bumped to the rate when it rounds to zero,
+// clamped to the maximum amount.
+//@ spec func feeRaw(rate Int, size Int) Int = (rate * size) / 1000
+//@ spec func feeBump(rate Int, size Int) Int = (feeRaw(rate, size) == 0 && rate > 0) ? rate : feeRaw(rate, size)
+//@ spec opaque func feeFor(rate Int, size Int) Int = (feeBump(rate, size) < 0 || feeBump(rate, size) > 2100000000000000) ? 2100000000000000 : feeBump(rate, size)
+
+// Monotone in the size from the relay floor upward (below the floor the
+// "round up to the rate" rule makes it non-monotone: feeFor(999, 1) = 999 but
+// feeFor(999, 2) = 1).
+//@ lemma fee_monotone_in_size@C07: forall rate Int, s1 Int, s2 Int :: 1000 <= rate && rate <= 2147483648 && 1 <= s1 && s1 <= s2 && s2 <= 2147483648 ==> feeFor(rate, s1) <= feeFor(rate, s2)
+//@ lemma fee_at_least_rate_times_size@C07: forall rate Int, s Int :: 1000 <= rate && rate <= 2147483648 && 1 <= s && s <= 2147483648 ==> feeFor(rate, s) >= (rate * s) / 1000 || feeFor(rate, s) == 2100000000000000
+
+//@ axiom txrules_errs: ErrAmountNegative != nil && ErrAmountExceedsMax != nil && ErrOutputIsDust != nil
+
+//@ func FeeForSerializeSize(relayFeePerKb, txSerializeSize) (fee)
+//@   property C07
+//@   replay txrules_fee.go
+//@   reveal feeFor
+//@   requires range: 0 <= relayFeePerKb && relayFeePerKb <= 2147483648 && 0 <= txSerializeSize && txSerializeSize <= 2147483648
+//@   ensures spec: fee == feeFor(relayFeePerKb, txSerializeSize)
+//@   ensures bounds: 0 <= fee && fee <= 2100000000000000
+
+//@ func IsDustOutput(output, relayFeePerKb) (r)
+//@   property C07
+//@   requires nonnil: output != nil
+//@   ensures def: r == (scriptClass(row(output.PkScript), output.PkScript.off, output.PkScript.len) != txscript.NullDataTy
+//@       && mpIsDust(row(output.PkScript), output.PkScript.off, output.PkScript.len, output.Value, relayFeePerKb))
+
+//@ func CheckOutput(output, relayFeePerKb) (err)
+//@   property C07
+//@   requires nonnil: output != nil
+//@   ensures ok_iff: (err == nil) == (0 <= output.Value && output.Value <= 2100000000000000
+//@       && !(scriptClass(row(output.PkScript), output.PkScript.off, output.PkScript.len) != txscript.NullDataTy
+//@            && mpIsDust(row(output.PkScript), output.PkScript.off, output.PkScript.len, output.Value, relayFeePerKb)))
+//@   ensures negative: output.Value < 0 ==> err == ErrAmountNegative
+//@   ensures toobig: output.Value > 2100000000000000 ==> err == ErrAmountExceedsMax
